@@ -335,7 +335,7 @@ for _k in ('exact', 'within-2pct', 'duplicate-blind', 'order'):
 
 def run(ctx):
     clauses = [
-        Clause('C14/big-history', big_history, oracle_big, quick=96, thorough=1280, quick_shards=16, thorough_shards=16),
+        Clause('C14/big-history', big_history, oracle_big, quick=64, thorough=1280, quick_shards=16, thorough_shards=16),
         Clause('C14/small-history', small_history, oracle_small, quick=600, thorough=30000, quick_shards=4,
                thorough_shards=16),
     ]
